@@ -132,14 +132,33 @@ pub fn make_config(profile: &str, run_seed: u64, thorough: bool, ntasks: usize, 
     };
     let mut pop = Vec::new();
     let mut emptied = Vec::new();
+    // One world in six is crowded (15-32 of the 32 possible tables: the archetype table has more
+    // than 16 buckets, a stage borrows more than 16 tables), one in sixty has a table of more than
+    // a thousand rows next to small ones (beyond small-size thresholds of the parallel plumbing).
+    let crowded = rng.chance(1, 6);
+    let big = !crowded && rng.chance(1, 60);
     if !rng.chance(empty_prob, 10) {
-        let nshapes = rng.range(1, if thorough { 12 } else { 8 });
-        for _ in 0..nshapes {
-            let mask = rng.below(32) as u8;
-            let n = *rng.pick(&[1u16, 1, 2, 2, 3, 7, 7, 20, if thorough { 300 } else { 60 }]);
-            pop.push((mask, n));
-            if rng.chance(1, 8) {
-                emptied.push(mask);
+        if crowded {
+            let mut masks: Vec<u8> = (0..32).collect();
+            let nshapes = rng.range(15, 32) as usize;
+            for i in 0..nshapes {
+                let j = i + rng.usize_below(masks.len() - i);
+                masks.swap(i, j);
+                let n = *rng.pick(&[1u16, 1, 1, 2, 3, 7]);
+                pop.push((masks[i], n));
+                if rng.chance(1, 8) {
+                    emptied.push(masks[i]);
+                }
+            }
+        } else {
+            let nshapes = rng.range(1, if thorough { 12 } else { 8 });
+            for i in 0..nshapes {
+                let mask = rng.below(32) as u8;
+                let n = if big && i == 0 { rng.range(1030, 2600) as u16 } else { *rng.pick(&[1u16, 1, 2, 2, 3, 7, 7, 20, if thorough { 300 } else { 60 }]) };
+                pop.push((mask, n));
+                if rng.chance(1, 8) && !(big && i == 0) {
+                    emptied.push(mask);
+                }
             }
         }
     }
@@ -269,6 +288,12 @@ fn run_case_on<Wx: SimWorld>(
         }
         if cfg.pop.is_empty() {
             hit(&mut probes, "world_without_archetypes", 1);
+        }
+        if cfg.pop.len() >= 15 {
+            hit(&mut probes, "crowded_world", 1);
+        }
+        if cfg.pop.iter().any(|(_, n)| *n >= 1024) {
+            hit(&mut probes, "table_of_more_than_1024_rows", 1);
         }
         if !Wx::HAS_RESOURCES {
             hit(&mut probes, "world_without_resources", 1);
